@@ -6,7 +6,7 @@ open Genshi Genshi.Heap Genshi.Sexp
 
 /-! wire format (see harness/props/c10.py `wire_*`):
   val    N | T | F | <int> | s<hex> | ( L atom* ) | ( F s<tag> )
-  expr   ( v s<name> ) | ( l val ) | ( eq e e ) | ( not e )
+  expr   ( v s<name> ) | ( l val ) | ( eq e e ) | ( not e ) | ( call s<f> ) | ( call s<f> e )
   ref    ( t n ) | ( p n )
   ev     ( O <event> ) | ( X expr ) | ( S ref ref ) | U
   dir    ( id kind args* )
@@ -22,14 +22,19 @@ def atom? : Sexp → Option Atom
   | .str s => some (.str s)
   | _ => none
 
-def val? : Sexp → Option Val
+def lit? : Sexp → Option Lit
   | .list (.atom "L" :: xs) => (xs.mapM atom?).map .list
-  | .list [.atom "F", .str t] => some (.opaque t)
   | x => (atom? x).map .atom
+
+def val? : Sexp → Option Val
+  | .list [.atom "F", .str t] => some (.opaque t)
+  | x => (lit? x).map Lit.val
 
 partial def expr? : Sexp → Option Expr
   | .list [.atom "v", .str n] => some (.var n)
-  | .list [.atom "l", v] => (val? v).map .lit
+  | .list [.atom "l", v] => (lit? v).map .lit
+  | .list [.atom "call", .str f] => some (.call0 f)
+  | .list [.atom "call", .str f, a] => do let a ← expr? a; pure (.call1 f a)
   | .list [.atom "eq", a, b] => do let a ← expr? a; let b ← expr? b; pure (.eq a b)
   | .list [.atom "not", a] => do let a ← expr? a; pure (.not a)
   | _ => none
@@ -65,6 +70,11 @@ def dir? : Sexp → Option Dir
       | "when", [e] => (optExpr? e).map .pyWhen
       | "otherwise", [] => some .pyOtherwise
       | "unwrap", [e] => (optExpr? e).map .pyStrip
+      | "def", [.str n, .list ps] => do
+          let ps ← ps.mapM fun
+            | .list [.str pn, d] => (optExpr? d).map fun d => (pn, d)
+            | _ => none
+          pure (.pyDef n ps)
       | "domain", [.str d] => some (.i18nDomain d)
       | "comment", [.str c] => some (.i18nComment c)
       | "ctxt", [.str c] => some (.i18nCtxt c)
@@ -106,10 +116,14 @@ def valOut : Val → Sexp
   | .atom a => atomOut a
   | .list xs => .list (.atom "L" :: xs.map atomOut)
   | .opaque t => .list [.atom "F", .str t]
+  | .macro m => .list [.atom "F", .str m.name]
+  | .gen0 _ => .atom "G"
+  | .gen1 _ _ => .atom "G"
 
 def errName : Err → String
   | .undefined => "UndefinedError"
   | .typeError => "TypeError"
+  | .attribute => "AttributeError"
   | .runtime => "TemplateRuntimeError"
   | .stopIter => "RuntimeError"
   | .unmodelled => "unmodelled"
